@@ -927,6 +927,17 @@ func (x *Exec) globalValue(pk *Pkg, name string, t types.Type) (Val, error) {
 				return nil, fmt.Errorf("constvar %s: %v", key, err)
 			}
 			v = cv
+		} else if gi != nil && gi.Kind != "opaque" && x.w.neverWritten(pk, name) {
+			// a package variable that no function of the module ever writes or lets escape (a lookup table a
+			// refactoring introduced, say): it holds its initialiser
+			x.arrayInit = true
+			cv, err := x.initVal(gi)
+			x.arrayInit = false
+			if err != nil {
+				return nil, fmt.Errorf("package variable %s: %v", key, err)
+			}
+			x.notes = append(x.notes, fmt.Sprintf("package variable %s is never written in the module: treated as the constant it is initialised to", key))
+			v = cv
 		} else {
 			return nil, fmt.Errorf("package variable %s is read but declared neither `config` nor `constvar`", key)
 		}
@@ -975,6 +986,26 @@ func (x *Exec) initVal(gi *GlobalInit) (Val, error) {
 			l.Elems = append(l.Elems, v)
 		}
 		l.Hi = len(l.Elems)
+		if at, isArr := gi.Type.Underlying().(*types.Array); isArr && x.arrayInit {
+			// an array value (not a slice of a table): scalar elements as an SMT array, others as a list
+			if isScalarType(at.Elem()) {
+				es := o.ElemSort(at.Elem())
+				arr := o.ConstArray(ArraySort(o.IdxSort(), es), x.zeroVal(at.Elem()).(*Term))
+				for i, e := range l.Elems {
+					t, ok := e.(*Term)
+					if !ok {
+						return nil, fmt.Errorf("array element %d is not a scalar", i)
+					}
+					arr = o.Store(arr, o.Idx(int64(i)), t)
+				}
+				return ArrayVal{Arr: arr, N: at.Len(), Elem: at.Elem()}, nil
+			}
+			lv := ListVal{Elem: at.Elem(), Elems: l.Elems}
+			for int64(len(lv.Elems)) < at.Len() {
+				lv.Elems = append(lv.Elems, x.zeroVal(at.Elem()))
+			}
+			return lv, nil
+		}
 		return l, nil
 	case "map":
 		mt := gi.Type.Underlying().(*types.Map)
@@ -1438,4 +1469,83 @@ func blockReaches(a, b *ssa.BasicBlock) bool {
 		return false
 	}
 	return walk(a)
+}
+
+// neverWritten: no function of the module stores to the package variable, takes a slice of it, passes its address
+// on or otherwise lets it escape - it is only ever read (directly, or element / field wise).
+func (w *World) neverWritten(pk *Pkg, name string) bool {
+	w.nwMu.Lock()
+	defer w.nwMu.Unlock()
+	if w.nwMemo == nil {
+		w.nwMemo = map[string]bool{}
+	}
+	key := pk.Name + "." + name
+	if r, ok := w.nwMemo[key]; ok {
+		return r
+	}
+	g, _ := pk.S.Members[name].(*ssa.Global)
+	res := g != nil
+	var readOnlyUse func(v ssa.Value, depth int) bool
+	readOnlyUse = func(v ssa.Value, depth int) bool {
+		refs := v.Referrers()
+		if refs == nil || depth > 4 {
+			return false
+		}
+		for _, r := range *refs {
+			switch t := r.(type) {
+			case *ssa.UnOp: // load
+				if t.Op.String() != "*" {
+					return false
+				}
+			case *ssa.IndexAddr:
+				if !readOnlyUse(t, depth+1) {
+					return false
+				}
+			case *ssa.FieldAddr:
+				if !readOnlyUse(t, depth+1) {
+					return false
+				}
+			case *ssa.DebugRef:
+			default:
+				return false
+			}
+		}
+		return true
+	}
+	if res {
+		// a Global has no referrer list: look at every instruction of every function of the module
+		for _, p := range w.Pkgs {
+			for _, fns := range p.Funcs {
+				for _, fn := range fns {
+					for _, b := range fn.Blocks {
+						for _, ins := range b.Instrs {
+							for _, op := range ins.Operands(nil) {
+								if *op != ssa.Value(g) {
+									continue
+								}
+								switch t := ins.(type) {
+								case *ssa.UnOp:
+									if t.Op.String() != "*" {
+										res = false
+									}
+								case *ssa.IndexAddr:
+									if !readOnlyUse(t, 0) {
+										res = false
+									}
+								case *ssa.FieldAddr:
+									if !readOnlyUse(t, 0) {
+										res = false
+									}
+								default:
+									res = false
+								}
+							}
+						}
+					}
+				}
+			}
+		}
+	}
+	w.nwMemo[key] = res
+	return res
 }
